@@ -122,16 +122,18 @@ def g_code(rng, depth):
         n = g_name(rng)
         if n not in varnames:
             varnames.append(n)
+    argc = rng.randint(0, len(varnames))
     free = [g_name(rng) for _ in range(rng.choice([0, 0, 0, 1, 2]))]
     cell = [g_name(rng) for _ in range(rng.choice([0, 0, 0, 1, 2]))]
     if varnames and rng.random() < 0.3:
         cell.append(rng.choice(varnames))       # a parameter captured by a closure: in varnames and in cellvars
-    if varnames and rng.random() < 0.05:
-        free.append(rng.choice(varnames))
+    if varnames[argc:] and rng.random() < 0.05:
+        # exercises the filter of dump_locals; never a parameter: CPython's constructor counts the parameters among
+        # the Local kinds and rejects the code object otherwise (constructor validation is C14, outside this model)
+        free.append(rng.choice(varnames[argc:]))
     # names of one code object are distinct within each table
     free = [x for i, x in enumerate(free) if x not in free[:i]]
     cell = [x for i, x in enumerate(cell) if x not in cell[:i] and x not in free]
-    argc = rng.randint(0, len(varnames))
     code = []
     for _ in range(rng.randint(1, 6)):
         code += [rng.choice(SAFE_OPS), rng.randint(0, 255)]
